@@ -343,6 +343,27 @@ def handleLayer (n : String) (t : LTypes) (mt : MetaT) (ci : CbInv) (cr : CbRes)
       | .delete _ => deleteLayer n (createLayer n t)
       | .replace m' _ => replaceMeta n m' (handleLayer n t mt ci cr f)
 
+/-- `struct_api::handle_layer` with callbacks that LOOK at what was read from disk, in the code's order: typed read
+(`read_layer::<M>`), on a decode failure the second, generic read of `<layer>.toml` (`read_toml_file`), then
+`invalid_metadata_action(&generic.metadata)` and the action it chose; `restored_layer_action(&metadata)` gets the
+metadata as decoded by `M`. A read that failed never reaches a callback: its error is returned by `call`. -/
+def handleLayerD (n : String) (t : LTypes) (mt : MetaT) (ci : Option MetaTbl → CbInv) (cr : Option MetaTbl → CbRes) : Nat → Prog
+  | 0 => .fail "diverge"
+  | f + 1 =>
+    readLayer n mt fun r => match r with
+    | .none => createLayer n t
+    | .some _ m =>
+      match cr (viewAs mt m) with
+      | .fail => .fail "buildpack"
+      | .delete _ => deleteLayer n (createLayer n t)
+      | .keep _ => replaceTypes n t unit
+    | .parseErr =>
+      readGeneric (layerToml n) fun _ gm =>
+      match ci gm with
+      | .fail => .fail "buildpack"
+      | .delete _ => deleteLayer n (createLayer n t)
+      | .replace m' _ => replaceMeta n m' (handleLayerD n t mt ci cr f)
+
 /-- `fs::write` of each SBOM: (format suffix, data) -/
 def writeSboms (n : String) : List (String × String) → Prog → Prog
   | [], k => k
@@ -497,6 +518,31 @@ def tHandle (n : String) (t : LTypes) (st : Strategy) (mig : Migration) (created
         match mig with
         | .recreate => deleteLayer n (tHandle n t st mig created updated f)
         | .replace m' => tWriteLayer n gt (some m') ge none none (tHandle n t st mig created updated f)
+      | .none => .fail "UnexpectedMissingLayer"
+      | .parseErr => .fail "parse"
+
+/-- `trait_api::handle_layer` with callbacks that LOOK at the `LayerData` read from disk: `existing_layer_strategy` sees the
+typed metadata and the env read back from the layer directory, `update` derives its result from them, and
+`migrate_incompatible_metadata` sees the generic metadata of the second `read_layer::<GenericMetadata>` -/
+def tHandleD (n : String) (t : LTypes) (st : Option MetaTbl → EnvSpec → Strategy) (mig : Option MetaTbl → Migration)
+    (created : LayerResultSpec) (updated : Option MetaTbl → EnvSpec → LayerResultSpec) : Nat → Prog
+  | 0 => .fail "diverge"
+  | f + 1 =>
+    tReadLayer n .versioned fun r => match r with
+    | .none => tCreate n t created
+    | .some _ m e =>
+      match st (viewAs .versioned m) e with
+      | .recreate => deleteLayer n (tCreate n t created)
+      | .update =>
+        let u := updated (viewAs .versioned m) e
+        tWriteLayer n (some t) (some u.mdata) u.env (some u.execd) (some u.sboms) (tReread n)
+      | .keep => tWriteLayer n (some t) (viewAs .versioned m) e none none (tReread n)
+    | .parseErr =>
+      tReadLayer n .generic fun g => match g with
+      | .some gt gm ge =>
+        match mig gm with
+        | .recreate => deleteLayer n (tHandleD n t st mig created updated f)
+        | .replace m' => tWriteLayer n gt (some m') ge none none (tHandleD n t st mig created updated f)
       | .none => .fail "UnexpectedMissingLayer"
       | .parseErr => .fail "parse"
 
